@@ -933,3 +933,67 @@ Proof.
   apply validb_spec in Vi. apply check_zoom_spec in Z1, Z2.
   rewrite (change_ext_api_parsed [id] [i] H V); [now rewrite change_single| cbn [parse_all]; now rewrite E | intros k [<-|[]]; exact Vi | lia | lia].
 Qed.
+
+(* ================================================================================================================== *)
+(* 7. Call histories: the four models keep no state                                                                    *)
+(* ================================================================================================================== *)
+(* The property quantifies over every history of calls of the four exported functions. On the model side a history is a list of calls and
+   its answers are `map run_call`: each answer is a function of that call's own arguments, whatever was called before (valid or failing
+   calls, the same arguments or related ones). This is what justifies judging every step of a CallHistory case of DC09 exactly like a
+   standalone case. On the code it is not a theorem: it is what the CallHistory cases check. *)
+Section History.
+  Variable m_tan m_cos m_log : pfloat -> pfloat.
+  Inductive call :=
+  | CallPoints (has_nil : bool) (l : list point) (h v : Z)       (* shape.GetExtendedSpatialIdsOnPoints *)
+  | CallChange (ids : list string) (H V : Z)                     (* integrate.ChangeExtendedSpatialIdsZoom *)
+  | CallMerge (ids : list string) (H V : Z)                      (* integrate.MergeExtendedSpatialIds *)
+  | CallOverlap (a b : string).                                  (* detector.CheckExtendedSpatialIdsOverlap *)
+  Inductive call_result := ResIds (r : result (list string)) | ResBool (r : result bool).
+  Definition run_call (c : call) : call_result :=
+    match c with
+    | CallPoints n l h v => ResIds (points_api m_tan m_cos m_log n l h v)
+    | CallChange ids H V => ResIds (change_ext_api ids H V)
+    | CallMerge ids H V => ResIds (merge_ext_api ids H V)
+    | CallOverlap a b => ResBool (overlap_check_api a b)
+    end.
+  Definition run_history (h : list call) : list call_result := map run_call h.
+
+  Theorem history_is_stateless h i c : nth_error h i = Some c -> nth_error (run_history h) i = Some (run_call c).
+  Proof. intros E. unfold run_history. now apply map_nth_error. Qed.
+
+  (* the same call made twice, with anything in between, is answered twice the same *)
+  Theorem repeated_call_same_answer before between after c :
+    nth_error (run_history (before ++ c :: between ++ c :: after)) (List.length before) =
+    nth_error (run_history (before ++ c :: between ++ c :: after)) (List.length before + 1 + List.length between)%nat.
+  Proof.
+    rewrite (history_is_stateless _ (List.length before) c), (history_is_stateless _ (List.length before + 1 + List.length between)%nat c); [reflexivity| |].
+    - rewrite nth_error_app2 by lia. replace (List.length before + 1 + List.length between - List.length before)%nat with (Datatypes.S (List.length between)) by lia.
+      cbn [nth_error]. rewrite nth_error_app2 by lia. now rewrite Nat.sub_diag.
+    - rewrite nth_error_app2 by lia. now rewrite Nat.sub_diag.
+  Qed.
+
+  (* C09's second clause inside ANY history: whatever is called before, between and after, zooming a valid ID in and zooming the answer out
+     again returns [ID] *)
+  Theorem zoom_in_out_in_any_history before between after i H V : valid i -> eh i <= H <= 35 -> ev i <= V <= 35 ->
+    exists mid,
+      nth_error (run_history (before ++ CallChange [print_eid i] H V :: between ++ CallChange mid (eh i) (ev i) :: after)) (List.length before)
+        = Some (ResIds (Ok mid)) /\
+      nth_error (run_history (before ++ CallChange [print_eid i] H V :: between ++ CallChange mid (eh i) (ev i) :: after))
+                (List.length before + 1 + List.length between)%nat = Some (ResIds (Ok [print_eid i])).
+  Proof.
+    intros Vi HH HV. destruct (zoom_in_out_api i H V Vi HH HV) as (mid & A & _ & B). exists mid. split.
+    - rewrite (history_is_stateless _ _ (CallChange [print_eid i] H V)); [cbn [run_call]; now rewrite A|].
+      rewrite nth_error_app2 by lia. now rewrite Nat.sub_diag.
+    - rewrite (history_is_stateless _ _ (CallChange mid (eh i) (ev i))); [cbn [run_call]; now rewrite B|].
+      rewrite nth_error_app2 by lia. replace (List.length before + 1 + List.length between - List.length before)%nat with (Datatypes.S (List.length between)) by lia.
+      cbn [nth_error]. rewrite nth_error_app2 by lia. now rewrite Nat.sub_diag.
+  Qed.
+End History.
+
+(* a concrete history: a failing call (zoom 36), the valid call, an unrelated overlap check, the failing call again, the valid call again *)
+Example history_example :
+  run_history (fun x => x) (fun x => x) (fun x => x)
+    [CallChange ["3/1/1/3/-8"%string] 36 2; CallChange ["3/1/1/3/-8"%string] 3 2; CallOverlap "4/14/6/25/101" "5/28/12/24/50";
+     CallChange ["3/1/1/3/-8"%string] 36 2; CallChange ["3/1/1/3/-8"%string] 3 2; CallMerge ["3/1/1/3/-8"%string; "3/1/b/3/-8"%string] 3 2]
+  = [ResIds Err; ResIds (Ok ["3/1/1/2/-4"%string]); ResBool (Ok true); ResIds Err; ResIds (Ok ["3/1/1/2/-4"%string]); ResIds Err].
+Proof. vm_compute. reflexivity. Qed.
